@@ -47,21 +47,34 @@ theorem lookupScope_isSome_iff (F : Facts) (σ : State) (sc : Scope) (loc : Ns) 
     cases σ.get F sc.mod n <;> simp
     cases F.isBuiltin n <;> simp
 
-/-- a `load` goes on iff the name resolves (LEGB), and is a `NameError` naming module, function
-and name otherwise; it never changes the state -/
+/-- a `load` goes on iff the name resolves (LEGB); otherwise a `NameError` naming module, function
+and name starts to unwind (to a handler of this code that catches `NameError`, else it is the
+result, see `uncaught_is_failure`); it never changes the state -/
 theorem load_resolves_iff (F : Facts) (imp : Imp) (sc : Scope)
     (n : Name) (rest : List Ev) (saved : List (State × Ns)) (loc : Ns) (σ : State) :
     execEvs F imp sc (.load n :: rest) .run saved loc σ =
       if (sc.fn.isSome && (lookup n loc).isSome) || (σ.get F sc.mod n).isSome || F.isBuiltin n
       then execEvs F imp sc rest .run saved loc σ
-      else .error (.nameError sc.mod sc.fn n) := by
+      else execEvs F imp sc rest (.raising (.err (.nameError sc.mod sc.fn n)) 0 0) saved loc σ := by
   rw [← lookupScope_isSome_iff]
   simp only [execEvs]
   cases lookupScope F σ sc loc n <;> simp
 
-example : ∃ F σ, execEvs F (fun _ s => .ok (s, none)) ⟨0, none⟩ [.load 7] .run [] [] σ
-    = .error (.nameError 0 none 7) :=
-  ⟨⟨[], [], 3, [], 16, 2, 0, [0]⟩, State.init, rfl⟩
+def emptyFacts : Facts := ⟨[], [], 3, [], 16, 2, 0, [0], [], none, [], []⟩
+
+example : execEvs emptyFacts (fun _ s => .ok (s, none)) ⟨0, none⟩ [.load 7] .run [] [] State.init
+    = .error (.nameError 0 none 7) := rfl
+
+/-- the idiom `try: unicode  except NameError: …` is not a failure: the handler catches it -/
+example : (match execEvs emptyFacts (fun _ s => .ok (s, none)) ⟨0, none⟩
+      [.tryBegin, .load 7, .bind 5, .tryExcept 2, .bind 6, .tryEnd] .run [] [] State.init with
+    | .ok out => decide (out.σ.get emptyFacts 0 6 = some .obj) && decide (out.σ.get emptyFacts 0 5 = none)
+    | .error _ => false) = true := by decide
+
+/-- … but a handler for another exception does not (`mask` 4 = `AttributeError` only) -/
+example : execEvs emptyFacts (fun _ s => .ok (s, none)) ⟨0, none⟩
+      [.tryBegin, .load 7, .tryExcept 4, .bind 6, .tryEnd] .run [] [] State.init
+    = .error (.nameError 0 none 7) := rfl
 
 /-- the attribute chain `v.a.b…` resolves in `σ`: every attribute read on a lena module is
 bound in that module's namespace; what is not a lena module is opaque -/
@@ -96,18 +109,22 @@ theorem walk_none_iff (F : Facts) (σ : State) (v : Val) (ch : List Name) :
           cases h with
           | step h1 h2 => rw [hg] at h1; cases h1; exact h2
 
-/-- an attribute chain goes on iff its root resolves (LEGB) and the chain resolves; otherwise it
-is a `NameError` for the root or an `AttributeError` naming the lena module and the attribute -/
+/-- an attribute chain goes on iff its root resolves (LEGB) and the chain resolves; otherwise a
+`NameError` for the root or an `AttributeError` naming the lena module and the attribute starts
+to unwind -/
 theorem attr_resolves_iff (F : Facts) (imp : Imp) (sc : Scope)
     (root : Name) (ch : List Name) (rest : List Ev) (saved : List (State × Ns)) (loc : Ns) (σ : State) :
     (execEvs F imp sc (.attr root ch :: rest) .run saved loc σ = execEvs F imp sc rest .run saved loc σ ∧
         ∃ v, lookupScope F σ sc loc root = some v ∧ ChainOk F σ v ch) ∨
-    execEvs F imp sc (.attr root ch :: rest) .run saved loc σ = .error (.nameError sc.mod sc.fn root) ∨
-    ∃ p a, execEvs F imp sc (.attr root ch :: rest) .run saved loc σ = .error (.attrError sc.mod sc.fn root p a) ∧
+    (execEvs F imp sc (.attr root ch :: rest) .run saved loc σ
+        = execEvs F imp sc rest (.raising (.err (.nameError sc.mod sc.fn root)) 0 0) saved loc σ ∧
+      lookupScope F σ sc loc root = none) ∨
+    ∃ p a, execEvs F imp sc (.attr root ch :: rest) .run saved loc σ
+        = execEvs F imp sc rest (.raising (.err (.attrError sc.mod sc.fn root p a)) 0 0) saved loc σ ∧
         ∃ v, lookupScope F σ sc loc root = some v ∧ ¬ ChainOk F σ v ch := by
   simp only [execEvs]
   cases hl : lookupScope F σ sc loc root with
-  | none => right; left; rfl
+  | none => right; left; exact ⟨rfl, rfl⟩
   | some v =>
     dsimp only
     cases hw : walk F σ v ch with
@@ -118,6 +135,15 @@ theorem attr_resolves_iff (F : Facts) (imp : Imp) (sc : Scope)
       intro h
       rw [(walk_none_iff F σ v ch).2 h] at hw
       cases hw
+
+/-- an exception that no handler of the code catches is the result: a would-be failure that
+reaches the end of the code *is* the failure (and the `ImportError` of an absent third-party
+module goes on to the importer / ends the call) -/
+theorem uncaught_is_failure (F : Facts) (imp : Imp) (sc : Scope) (e : Err) (x d r : Nat)
+    (saved : List (State × Ns)) (loc : Ns) (σ : State) :
+    execEvs F imp sc [] (.raising (.err e) d r) saved loc σ = .error e ∧
+    execEvs F imp sc [] (.raising (.ext x) d r) saved loc σ = .ok ⟨σ, loc, some x⟩ := by
+  simp only [execEvs, and_self]
 
 /-! ## a call without import statements leaves the interpreter state alone -/
 
@@ -474,8 +500,8 @@ package and is bound in the importer's namespace. -/
 theorem exported_of_resolvesAll (F : Facts) (h : resolvesAll F = true) (e : ModId) (he : e ∈ F.entries)
     (E : Module) (hE : F.modOf e = some E) (p : ModId) (hp : Ev.star p ∈ E.evs)
     (P : Module) (hP : F.modOf p = some P) (names : List Name) (hall : P.all = some names) :
-    ∃ σ₀, importEntry F e = .ok (σ₀, none) ∧
-      ∀ n ∈ names, (σ₀.get F p n).isSome = true ∧ (σ₀.get F e n).isSome = true := by
+    ∃ σ₀, importEntry F e = .ok (σ₀, none) ∧ P.allDynamic = false ∧
+      ∀ n ∈ names, (σ₀.get F p n).isSome = true := by
   unfold resolvesAll at h
   simp only [Bool.and_eq_true, List.all_eq_true] at h
   obtain ⟨σ₀, final, hi, hexp, _, _⟩ := resolvesEntry_spec F e (h.2 e he)
@@ -483,9 +509,8 @@ theorem exported_of_resolvesAll (F : Facts) (h : resolvesAll F = true) (e : ModI
   unfold exportedB at hexp
   simp only [hE, List.all_eq_true] at hexp
   have := hexp _ hp
-  simp only [hP, hall, Option.getD_some, List.all_eq_true, Bool.and_eq_true] at this
-  intro n hn
-  exact ⟨(this n hn).2, (this n hn).1⟩
+  simp only [hP, hall, Option.getD_some, List.all_eq_true, Bool.and_eq_true, Bool.not_eq_true'] at this
+  exact ⟨this.1, fun n hn => this.2 n hn⟩
 
 /-! ## the interpreter state: `sys.modules` only grows, module values are imported modules
 
@@ -560,8 +585,8 @@ theorem exported_envs (F : Facts) (h : resolvesAllEnvs F = true) (env : Nat) (he
     (e : ModId) (he : e ∈ F.entries)
     (E : Module) (hE : F.modOf e = some E) (p : ModId) (hp : Ev.star p ∈ E.evs)
     (P : Module) (hP : F.modOf p = some P) (names : List Name) (hall : P.all = some names) :
-    ∃ σ₀, importEntry (F.withEnv env) e = .ok (σ₀, none) ∧
-      ∀ n ∈ names, (σ₀.get (F.withEnv env) p n).isSome = true ∧ (σ₀.get (F.withEnv env) e n).isSome = true := by
+    ∃ σ₀, importEntry (F.withEnv env) e = .ok (σ₀, none) ∧ P.allDynamic = false ∧
+      ∀ n ∈ names, (σ₀.get (F.withEnv env) p n).isSome = true := by
   unfold resolvesAllEnvs at h
   rw [List.all_eq_true] at h
   exact exported_of_resolvesAll (F.withEnv env) (h env henv) e he E hE p hp P hP names hall
@@ -587,24 +612,27 @@ theorem resolver_alarm_envs (F : Facts) (h : resolvesAllEnvs F = false) :
 theorem ext_step (F : Facts) (imp : Imp) (sc : Scope) (x : Nat) (rest : List Ev)
     (saved : List (State × Ns)) (loc : Ns) (σ : State) :
     execEvs F imp sc (.ext x :: rest) .run saved loc σ =
-      if F.isAbsent x then execEvs F imp sc rest (.raising x 0 0) saved loc σ
+      if F.isAbsent x then execEvs F imp sc rest (.raising (.ext x) 0 0) saved loc σ
       else execEvs F imp sc rest .run saved loc σ := by
   simp only [execEvs]
 
-/-- the handler of the innermost enclosing `try` catches the `ImportError`; the handler of a `try`
-whose body ran to its end is skipped up to its `tryEnd` -/
-theorem try_handler_catches (F : Facts) (imp : Imp) (sc : Scope) (x r : Nat) (rest : List Ev)
+/-- the handler of the innermost enclosing `try` catches the exception if its mask covers the
+exception's kind (else the search goes on behind its `tryEnd`); the handler of a `try` whose body
+ran to its end is skipped up to its `tryEnd` -/
+theorem try_handler_catches (F : Facts) (imp : Imp) (sc : Scope) (x : Exc) (mask r : Nat) (rest : List Ev)
     (saved : List (State × Ns)) (loc : Ns) (σ : State) :
-    execEvs F imp sc (.tryExcept :: rest) (.raising x 0 r) saved loc σ = execEvs F imp sc rest .run saved loc σ ∧
-    execEvs F imp sc (.tryExcept :: rest) .run saved loc σ = execEvs F imp sc rest (.skipping 0 0) saved loc σ ∧
+    execEvs F imp sc (.tryExcept mask :: rest) (.raising x 0 r) saved loc σ =
+      (if Nat.land mask x.kind != 0 then execEvs F imp sc rest .run saved loc σ
+       else execEvs F imp sc rest (.raising x 1 r) saved loc σ) ∧
+    execEvs F imp sc (.tryExcept mask :: rest) .run saved loc σ = execEvs F imp sc rest (.skipping 0 0) saved loc σ ∧
     execEvs F imp sc (.tryEnd :: rest) (.skipping 0 r) saved loc σ = execEvs F imp sc rest .run saved loc σ := by
   simp only [execEvs, and_self]
 
-/-- while an `ImportError` unwinds, nothing is bound and nothing is imported: an event that is
-not a marker is skipped -/
-theorem raising_skips (F : Facts) (imp : Imp) (sc : Scope) (x d r : Nat) (ev : Ev) (rest : List Ev)
+/-- while an exception unwinds, nothing is bound and nothing is imported: an event that is not a
+marker is skipped -/
+theorem raising_skips (F : Facts) (imp : Imp) (sc : Scope) (x : Exc) (d r : Nat) (ev : Ev) (rest : List Ev)
     (saved : List (State × Ns)) (loc : Ns) (σ : State)
-    (h : ev ≠ .tryBegin ∧ ev ≠ .tryExcept ∧ ev ≠ .tryEnd ∧ ev ≠ .enter ∧ ev ≠ .leave) :
+    (h : ev ≠ .tryBegin ∧ (∀ mask, ev ≠ .tryExcept mask) ∧ ev ≠ .tryEnd ∧ ev ≠ .enter ∧ ev ≠ .leave) :
     execEvs F imp sc (ev :: rest) (.raising x d r) saved loc σ
       = execEvs F imp sc rest (.raising x d r) saved loc σ := by
   cases ev <;> simp_all [execEvs]
@@ -632,8 +660,8 @@ theorem gbind_binds (F : Facts) (imp : Imp) (sc : Scope) (n : Name) (rest : List
 /-- a module `0` whose code is `try: import <third-party 0>; a = …  except ImportError: b = …`
 (names `5`, `6`), then `c = …` (name `7`) -/
 def exampleTry : Facts :=
-  ⟨[⟨0, none, 4, none, [.tryBegin, .ext 0, .bind 5, .tryExcept, .bind 6, .tryEnd, .bind 7], []⟩],
-    [], 3, [], 16, 2, 0, [0, 1]⟩
+  ⟨[⟨0, none, 4, none, false, [.tryBegin, .ext 0, .bind 5, .tryExcept 1, .bind 6, .tryEnd, .bind 7], []⟩],
+    [], 3, [], 16, 2, 0, [0, 1], [], none, [], []⟩
 
 /-- with the third-party module present the `try` path binds `5` and the handler is skipped; with
 it absent the handler binds `6`; `7` is bound either way and the import succeeds -/
@@ -651,14 +679,188 @@ example :
 /-- without the handler the `ImportError` escapes: the module is removed from `sys.modules`
 (`failed`) and the importer sees the exception -/
 example :
-    (match importMod (⟨[⟨0, none, 4, none, [.ext 0, .bind 5], []⟩], [], 3, [], 16, 2, 1, [1]⟩ : Facts) 3 0 State.init with
+    (match importMod (⟨[⟨0, none, 4, none, false, [.ext 0, .bind 5], []⟩], [], 3, [], 16, 2, 1, [1], [], none, [], []⟩ : Facts) 3 0 State.init with
      | .ok (σ, some 0) => decide (σ.statusOf 0 = .failed)
      | _ => false) = true := by
   decide
 
+/-! ## exceptions: "reported with the documented LenaException subclasses", "all Lena exceptions
+derive from LenaException" (what can be stated over the facts) -/
+
+/-- class `i` has class `r` among its ancestors, through classes of the tree (specification;
+`derivesB` is the executable check) -/
+inductive Derives (F : Facts) : Nat → Nat → Prop where
+  | refl (i : Nat) : Derives F i i
+  | step {i j r : Nat} {C : ClassFact} : F.classes[i]? = some C → ClassRef.cls j ∈ C.bases →
+      Derives F j r → Derives F i r
+
+theorem derivesB_sound (F : Facts) : ∀ (k i r : Nat), derivesB F k i r = true → Derives F i r := by
+  intro k
+  induction k with
+  | zero =>
+    intro i r h
+    simp only [derivesB] at h
+    have := Nat.eq_of_beq_eq_true h
+    subst this; exact Derives.refl i
+  | succ k ih =>
+    intro i r h
+    simp only [derivesB, Bool.or_eq_true] at h
+    rcases h with h | h
+    · have := Nat.eq_of_beq_eq_true h
+      subst this; exact Derives.refl i
+    · split at h
+      · rename_i C hC
+        rw [List.any_eq_true] at h
+        obtain ⟨b, hb, hd⟩ := h
+        cases b with
+        | cls j => exact Derives.step hC hb (ih j r hd)
+        | builtin n => simp at hd
+        | unknown => simp at hd
+      · cases h
+
+/-- what a `raise` statement that names a class may name: a class of the tree that derives from
+`LenaException`; or a builtin — but a builtin that a documented lena exception wraps
+(`TypeError` ↔ `LenaTypeError`, …) only where Python's attribute protocol demands it -/
+def RaiseOk (F : Facts) (r : RaiseFact) : Prop :=
+  match r.what with
+  | .cls i => ∃ root, F.excRoot = some root ∧ Derives F i root
+  | .builtin b => r.protocol = true ∨ b ∉ counterparts F
+  | .unknown => True
+
+/-- **All lena exceptions derive from LenaException; `raise` statements name documented
+exceptions** (for all facts): if `exceptionsOk` holds, then there is a class `LenaException`,
+every class of `lena/core/exceptions.py` has it among its ancestors, and every `raise` statement
+of the tree that names a class satisfies `RaiseOk`. -/
+theorem exceptions_of_ok (F : Facts) (h : exceptionsOk F = true) :
+    ∃ root, F.excRoot = some root ∧
+      (∀ i C, F.classes[i]? = some C → C.isLenaExc = true → Derives F i root) ∧
+      ∀ r ∈ F.raises, RaiseOk F r := by
+  unfold exceptionsOk at h
+  rw [Bool.and_eq_true] at h
+  obtain ⟨h1, h2⟩ := h
+  cases hr : F.excRoot with
+  | none => rw [hr] at h1; cases h1
+  | some root =>
+    rw [hr] at h1
+    refine ⟨root, rfl, ?_, ?_⟩
+    · intro i C hC hexc
+      rw [List.all_eq_true] at h1
+      have := h1 (i, C) ((mem_zipIdx _ _ _ _).2 ⟨i, by omega, hC⟩)
+      simp only [hexc, Bool.not_true, Bool.false_or] at this
+      exact derivesB_sound F _ i root this
+    · intro r hrm
+      rw [List.all_eq_true] at h2
+      have := h2 r hrm
+      unfold raiseOkB at this
+      unfold RaiseOk
+      cases hw : r.what with
+      | cls i =>
+        rw [hw, hr] at this
+        exact ⟨root, hr, derivesB_sound F _ i root this⟩
+      | builtin b =>
+        rw [hw] at this
+        simp only [Bool.or_eq_true, Bool.not_eq_true'] at this
+        rcases this with hp | hc
+        · exact Or.inl hp
+        · right
+          intro hmem
+          have : (counterparts F).any (Nat.beq b) = true :=
+            List.any_eq_true.2 ⟨b, hmem, by simp⟩
+          rw [this] at hc
+          cases hc
+      | unknown => trivial
+
+/-- a tree with `class LenaException(Exception)`, `class LenaKeyError(LenaException, KeyError)`,
+a `raise LenaKeyError`, and a `raise KeyError` inside `__getattr__`-like protocol code: accepted;
+the same `raise KeyError` elsewhere, or `class LenaKeyError(KeyError)`: rejected -/
+example :
+    let cls : List ClassFact := [⟨0, 10, 1, [.builtin 20], true⟩, ⟨0, 11, 2, [.cls 0, .builtin 21], true⟩]
+    (exceptionsOk ⟨[], [], 3, [], 16, 2, 0, [0], cls, some 0, [⟨0, 12, 5, .cls 1, false⟩, ⟨0, 13, 6, .builtin 21, true⟩], []⟩ &&
+     !exceptionsOk ⟨[], [], 3, [], 16, 2, 0, [0], cls, some 0, [⟨0, 13, 6, .builtin 21, false⟩], []⟩ &&
+     !exceptionsOk ⟨[], [], 3, [], 16, 2, 0, [0], [⟨0, 10, 1, [.builtin 20], true⟩, ⟨0, 11, 2, [.builtin 21], true⟩],
+        some 0, [], []⟩) = true := by
+  decide
+
+/-- **Possibly-unbound locals are audited ones** (for all facts): if `localsOk` holds, every read
+of a local that CPython's definite-assignment analysis cannot prove bound is one of the audited
+reads.  This is the `_partial` of `no_unbound_local_full`. -/
+theorem locals_audited_partial (F : Facts) (h : localsOk F = true) :
+    ∀ u ∈ F.maybeUnbound, u.audited = true := by
+  unfold localsOk at h
+  rw [List.all_eq_true] at h
+  exact h
+
+/-! ## clauses that the facts cannot express: full statements, kept as `_full`
+
+The interpreter of this file has no notion of the *behaviour* of an element (what a call returns
+or raises for given arguments).  The two clauses below are therefore stated over an abstract
+observation function and are **not proved**; the only evidence for them is dynamic: the
+behaviour cases of `harness/props/c20.py` (every public name exercised on a fixed palette of
+argument tuples and flows in fresh interpreters, only its own sub-package imported vs the whole
+framework imported, in every environment), whose reach is reported in the evidence
+(`behaviour_function_coverage`). -/
+
+/-- clause 1b, full: "every public element behaves the same in a fresh interpreter that has
+imported only its own subpackage as it does after the whole framework has been imported".
+`observe loaded element input` stands for the observable outcome (value or exception class) of
+exercising `element` on `input` in an interpreter whose imported sub-packages are `loaded`.
+NOT PROVED (no behaviour model); tested by the behaviour cases. -/
+def behaves_same_full {Outcome Input : Type} (subpackages : List ModId) (publicNames : ModId → List Name)
+    (observe : List ModId → ModId → Name → Input → Outcome) : Prop :=
+  ∀ pkg ∈ subpackages, ∀ n ∈ publicNames pkg, ∀ x : Input,
+    observe [pkg] pkg n x = observe subpackages pkg n x
+
+/-- what the model does say about clause 1b (`_partial`): with only its own sub-package imported
+and with the whole framework imported alike, no call can end in one of the undefined-name
+failures — the two interpreters cannot differ *by* a `NameError` / `AttributeError` on a lena
+module / lena `ImportError`. -/
+theorem behaves_same_partial (F : Facts) (h : resolvesAllEnvs F = true) (env : Nat) (henv : env ∈ F.envs)
+    (own whole : ModId) (ho : own ∈ F.entries) (hw : whole ∈ F.entries) :
+    (∃ σ₀, importEntry (F.withEnv env) own = .ok (σ₀, none) ∧
+        ∀ σ, Reach (F.withEnv env) σ₀ σ → Safe (F.withEnv env) σ) ∧
+    (∃ σ₀, importEntry (F.withEnv env) whole = .ok (σ₀, none) ∧
+        ∀ σ, Reach (F.withEnv env) σ₀ σ → Safe (F.withEnv env) σ) :=
+  ⟨resolver_sound_envs F h env henv own ho, resolver_sound_envs F h env henv whole hw⟩
+
+/-- clause 2b (positive half), full: "invalid arguments and missing keys are reported with the
+documented LenaException subclasses".  `raisedBy element input` is the class of the exception a
+call raises, if any; `isInvalid` says that the input is an invalid argument / has a missing key;
+`derivesFromLenaException` is about the runtime class.  NOT PROVED (no behaviour model): what is
+proved is `exceptions_of_ok` — every `raise` statement names a documented exception — which does
+not cover exceptions raised by Python itself (`TypeError` for a wrong number of arguments,
+`KeyError` from a dict lookup), nor says which inputs are "invalid". -/
+def invalid_arguments_reported_full {Input ExcClass : Type} (elements : List Name)
+    (isInvalid : Name → Input → Prop) (raisedBy : Name → Input → Option ExcClass)
+    (derivesFromLenaException : ExcClass → Prop) : Prop :=
+  ∀ el ∈ elements, ∀ x : Input, isInvalid el x → ∃ c, raisedBy el x = some c ∧ derivesFromLenaException c
+
+/-- clause 2a for ordinary locals, full: no read of a local variable can find it unbound
+(`UnboundLocalError` is a `NameError`).  `unboundReadPossible` stands for the existence of a run
+of the function that reads `var` before binding it.  NOT PROVED: the interpreter follows only
+the locals bound by imports, module aliases and closure cells; for the others the facts list the
+reads CPython itself cannot prove bound, and `locals_audited_partial` says they are audited. -/
+def no_unbound_local_full (unboundReadPossible : ModId → Name → Name → Prop) : Prop :=
+  ∀ m fn var, ¬ unboundReadPossible m fn var
+
+/-- an alias of a module is followed: `flow_mod = lena.flow; flow_mod.get_data_and_context` is an
+`AttributeError` on a lena module (package `0`, submodule `1` with attribute name `5`, the alias
+is the name `8`, `6` exists in the submodule and `7` does not) -/
+example :
+    let F : Facts := ⟨[⟨0, none, 4, none, false, [], []⟩,
+        ⟨1, some 0, 5, none, false, [.ensure 0, .bind 6], []⟩], [], 3, [], 16, 2, 0, [0], [], none, [], []⟩
+    (match importMod F 3 1 State.init with
+     | .ok (σ, _) =>
+       (match execEvs F (importMod F 3) ⟨1, some 9⟩ [.bindMod 10 0, .alias 8 10 [5], .attr 8 [6]] .run [] [] σ with
+        | .ok _ => true | .error _ => false) &&
+       (match execEvs F (importMod F 3) ⟨1, some 9⟩ [.bindMod 10 0, .alias 8 10 [5], .attr 8 [7]] .run [] [] σ with
+        | .error (.attrError 1 (some 9) 8 1 7) => true | _ => false)
+     | .error _ => false) = true := by
+  decide
+
 /-- a package `0` with a submodule `1` whose attribute name is `5` -/
 def exampleFacts : Facts :=
-  ⟨[⟨0, none, 4, none, [], []⟩, ⟨1, some 0, 5, none, [.ensure 0, .bind 6], []⟩], [], 3, [], 16, 2, 0, [0]⟩
+  ⟨[⟨0, none, 4, none, false, [], []⟩, ⟨1, some 0, 5, none, false, [.ensure 0, .bind 6], []⟩], [], 3, [], 16, 2, 0, [0],
+    [], none, [], []⟩
 
 /-- before the import the package has no such attribute; after it the attribute is the module,
 and package and module are in `sys.modules` -/
